@@ -24,9 +24,33 @@ def _alarm(signum, frame):
     raise RunTimeout()
 
 
+def reset_library_caches():
+    """Every run starts like a fresh process as far as the library's own module-level memo functions go
+    (functools.cache / lru_cache objects in pymablock modules and on their classes): the outcome of a run never depends on
+    what its worker executed before, and state that the library keeps across computations is created *inside* the run,
+    where the oracle can see its effect."""
+    import sys
+
+    for name, mod in list(sys.modules.items()):
+        if not name.startswith("pymablock") or mod is None:
+            continue
+        for obj in list(vars(mod).values()):
+            targets = [obj]
+            if isinstance(obj, type) and getattr(obj, "__module__", "").startswith("pymablock"):
+                targets += list(vars(obj).values())
+            for t in targets:
+                clear = getattr(t, "cache_clear", None)
+                if callable(clear):
+                    try:
+                        clear()
+                    except Exception:  # noqa: BLE001
+                        pass
+
+
 def run_case(prop, case, timeout=None):
     """Execute one case under a watchdog.  Returns (outcome | None, harness_error | None)."""
     timeout = timeout or getattr(prop, "run_timeout", 60)
+    reset_library_caches()
     old = signal.signal(signal.SIGALRM, _alarm)
     signal.setitimer(signal.ITIMER_REAL, timeout)
     try:
